@@ -826,12 +826,22 @@ impl Entry {
                 break;
             }
         }
-        new_root.splice_children(0..new_head_len, old_head);
-        let tail_pos = new_root.children_with_tokens().count() - new_tail_len;
-        new_root.splice_children(
-            tail_pos - new_tail_len..tail_pos,
-            old_tail.into_iter().rev(),
-        );
+        // Detach the new relation's own edge whitespace one token at a time
+        // (splice_children only detaches the first element of a range) ...
+        for _ in 0..new_head_len {
+            if let Some(c) = new_root.first_child_or_token() {
+                c.detach();
+            }
+        }
+        for _ in 0..new_tail_len {
+            if let Some(c) = new_root.last_child_or_token() {
+                c.detach();
+            }
+        }
+        // ... and put the old relation's around it
+        new_root.splice_children(0..0, old_head);
+        let end = new_root.children_with_tokens().count();
+        new_root.splice_children(end..end, old_tail.into_iter().rev());
         let index = old_root.index();
         self.0
             .splice_children(index..index + 1, vec![new_root.into()]);
